@@ -545,6 +545,10 @@ def enum_getattr(interp, ev, name):
         raise PyExc('AttributeError', '%s has no attribute %s' % (ev.ecls, name), True)
     # symbolic member of an int enum: table lookup
     if not p.enum_is_int(ev.ecls):
+        if name == 'value':
+            vals = [m.value for m in p.enum_members(ev.ecls)]
+            if all(isinstance(v, int) for v in vals) and vals == list(range(vals[0], vals[0] + len(vals))):
+                return i_add(ev.index, vals[0])
         raise Unsupported('attribute of symbolic member of %s' % ev.ecls)
     f, rows, rcls = _enum_table(interp, ev.ecls, name)
     c = ctx()
